@@ -92,7 +92,10 @@ def _parses(kind, data):
     try:
         if kind == "meta":
             import json
-            return ("meta", json.dumps(json.loads(data.decode("utf-8")), sort_keys=True))
+            d_ = json.loads(data.decode("utf-8"))
+            if not isinstance(d_, dict) or "snapshots" not in d_ or "current_snapshot_id" not in d_ or "table_uuid" not in d_:
+                return None         # JSON, but not a table-metadata document
+            return ("meta", json.dumps(d_, sort_keys=True))
         if kind in ("mlist", "manifest"):
             import fastavro
             return (kind, repr(list(fastavro.reader(io.BytesIO(data)))))
@@ -107,7 +110,9 @@ def _damages(data, sibling):
     out = [("deleted", None), ("emptied", b""), ("garbage", b"\x00\xffthis is not a file of this kind{{{" * 3),
            ("truncated-1", data[:1]), ("truncated-quarter", data[: max(2, n // 4)]), ("truncated-half", data[: n // 2]),
            ("truncated-minus1", data[:-1]), ("truncated-minus-footer", data[: max(1, n - 12)]),
-           ("truncated-minus24", data[: max(1, n - 24)]), ("truncated-minus60", data[: max(1, n - 60)])]
+           ("truncated-minus24", data[: max(1, n - 24)]), ("truncated-minus60", data[: max(1, n - 60)]),
+           # bytes that are valid JSON and not a file of this kind
+           ("json-empty-object", b"{}"), ("json-empty-list", b"[]"), ("json-null", b"null")]
     for name, pos in (("flip-head", min(3, n - 1)), ("flip-middle", n // 2), ("flip-tail", n - 2)):
         b = bytearray(data)
         b[pos] ^= 0xFF
